@@ -128,7 +128,7 @@ def sany(module: str, spec_dir: Path = SPEC) -> None:
 
 def spec_digest(*modules: str) -> str:
     h = hashlib.sha256()
-    for f in sorted(SPEC.glob("*.tla")):
+    for f in sorted(list(SPEC.glob("*.tla")) + list(SPEC.glob("*.cfg"))):
         h.update(f.name.encode())
         h.update(f.read_bytes())
     for m in modules:
